@@ -88,8 +88,10 @@ RepsMis(pre, xs, gs) ==
       THEN LET j == Min(miscount) IN <<V("report-count", RepTag(xs[j].kind), xs[j], gs)>>
       ELSE <<>>
 
-TrOk(x, g) == g.t = x.t /\ g.ent = x.ent /\ g.sh = x.sh /\ g.nameok = 1 /\ g.argsok = 1
-              /\ g.args = x.args /\ g.res = x.res /\ g.resv = x.resv
+TrOk(x, g) == IF g.res = "other"        \* unknown trace wording: the right tracer, the right expectation with its text, the values
+              THEN g.t = x.t /\ g.ent = x.ent /\ g.nameok = 1 /\ {x.args[i] : i \in 1..Len(x.args)} \subseteq {g.args[i] : i \in 1..Len(g.args)}
+              ELSE g.t = x.t /\ g.ent = x.ent /\ g.sh = x.sh /\ g.nameok = 1 /\ g.argsok = 1
+                   /\ g.args = x.args /\ g.res = x.res /\ g.resv = x.resv
 
 \* clause log: P = 1, W = 2, S = 3, R = 4;  entries <<kind, slot, index, result>>
 ClauseMis(pre, o, cl) ==
